@@ -119,6 +119,28 @@ def c14(ctx):
              "operand itself (outcome table by KIND; the same is_truthy that and/or/nor and the conditions use)")
     from .c03 import unary_rule
     unary_rule(ctx, "C14.R6")
+    rep.rule("C14.R10", "an assignment stores the value it computed, whatever was there before: the writer closure of ExecStmt::writer assigns the "
+             "target on every path and compares nothing (a `store only if different` skips -0 over 0 and makes the compound form differ from "
+             "the spelled-out one)")
+    wr = F.fn("exec::exec_stmt::ExecStmt::<'a, I, O>::writer")
+    if wr is None:
+        rep.fail("C14.R10", "anchor", "ExecStmt::writer not found")
+    else:
+        rep.analysed(wr)
+        cls = [b for b in F.with_closures(wr) if b.kind == "closure"]
+        ok, why = len(cls) == 1, "" if len(cls) == 1 else "expected one writer closure, found %d" % len(cls)
+        if ok:
+            b = cls[0]
+            stores = [bi for bi, si, st in b.assigns() if st["pl"]["p"] == ["deref"] and 2 <= st["pl"]["l"] <= b.argc]
+            stores += [bi for bi, t in b.calls() if t["dest"]["p"] == ["deref"] and 2 <= t["dest"]["l"] <= b.argc]
+            cmps = [callee_def(t) for bi, t in b.calls() if (callee_def(t) or "").startswith("std::cmp::") or (t["callee"].get("name") or "") in ("equals", "eq", "ne")]
+            if not stores:
+                ok, why = False, "the writer never assigns the target"
+            elif common.path_to_return_avoiding(b, stores, through_errors=True):
+                ok, why = False, "on some path the writer does not store the value (a store that depends on what the target held)"
+            elif cmps:
+                ok, why = False, "the writer compares (%s) before it stores" % cmps
+        rep.ob("C14.R10", "writer-stores-unconditionally", ok, why, wr.loc(), how="*v = val.clone() on every path")
     rep.rule("C14.R9", "within one kind, ordering is the kind's own comparison and nothing else: compare(Number, Number) is f64::partial_cmp of "
              "(self, other) or unordered, compare(String, String) is str::cmp of (self, other) -- the relations whose `Equal` is exactly the "
              "derived equality `is` uses (R7), so `a <= b and a >= b` cannot hold for two strings that `is` tells apart (term anchors shared "
